@@ -70,7 +70,7 @@ Lemma commit_body_ka o s :
   commit_body o s = match ka s with KRunning _ => set_ka KClosed (commit_body0 o s) | _ => commit_body0 o s end.
 Proof.
   unfold commit_body, commit_body0, ka_close, mutations, keep_mut, primary_in.
-  destruct s as [a1 a2 a3 a4 a5 a6 a7 a8 a9 a10 a11 a12 a13 a14]. cbn [ka set_valid valid written flags primary pess store fu cmaxc tasks set_ka set_committer].
+  destruct s as [a1 a2 a3 a4 a5 a6 a7 a8 a9 a10 a11 a12 a13 a14 a15]. cbn [ka set_valid valid written flags primary pess store fu cmaxc tasks set_ka set_committer].
   destruct a14; cbn [ka set_valid valid written flags primary pess store fu cmaxc tasks set_ka set_committer];
     destruct (dedup_sort _); try reflexivity;
     destruct (co_mode o); destruct (co_res o); try reflexivity;
@@ -164,13 +164,13 @@ Qed.
 Lemma agg_cancel_flags s : flags (agg_cancel s) = flags s.
 Proof.
   unfold agg_cancel. destruct (agg s) as [a|]; auto. unfold cleanup_redundant, reset_primary, ka_reset.
-  destruct s as [a1 a2 a3 a4 a5 a6 a7 a8 a9 a10 a11 a12 a13 a14]; simpl.
+  destruct s as [a1 a2 a3 a4 a5 a6 a7 a8 a9 a10 a11 a12 a13 a14 a15]; simpl.
   destruct (prev a); destruct (aprim a || alastprim a); destruct a14; destruct (cur a); reflexivity.
 Qed.
 Lemma agg_cancel_written s : written (agg_cancel s) = written s.
 Proof.
   unfold agg_cancel. destruct (agg s) as [a|]; auto. unfold cleanup_redundant, reset_primary, ka_reset.
-  destruct s as [a1 a2 a3 a4 a5 a6 a7 a8 a9 a10 a11 a12 a13 a14]; simpl.
+  destruct s as [a1 a2 a3 a4 a5 a6 a7 a8 a9 a10 a11 a12 a13 a14 a15]; simpl.
   destruct (prev a); destruct (aprim a || alastprim a); destruct a14; destruct (cur a); reflexivity.
 Qed.
 
